@@ -168,7 +168,7 @@ def run(ctx):
         cases.append(c)
     # non-canonical first bytes (every variant, at every run, with and without SIMPLE_GENERATOR): the byte-level
     # check_generator_quote must reject on BOTH paths what only the node-level check would accept
-    cases.extend(env.head_cases(per_head=1 if tier == "quick" else 20))
+    cases.extend(env.head_cases(per_head=2 if tier == "quick" else 20))
     # corpus
     impl_only = []
     for name, prog, refs, big in G.file_cases(tier, env):
